@@ -8,6 +8,10 @@ CHECKS = {
    text="Theorems over a Gallina model of the settings chain for level lists of any length; prefer_important / is_marked_important / remove_important are regenerated from the source on every run; the hand-written chain is tied to the real Configurator by an exhaustive correspondence (2x3^7 per marked setting, 2^7 per plain setting, 2^6 per variable list) plus random mixed configurations.",
    note="Trusted: Coq kernel, vm_compute, translator tr_important.py, primitives of Model/PyVal.v, the harness. YAML/pykwalify outside the model.",
    technique="Rocq proof (induction over the level list) + translated kernel + exhaustive correspondence"),
+ "C03": dict(
+   text="Theorems over a Gallina model of Python's %-formatting with a mapping (tokenizer + left-to-right substitution) and of run_id.py's command construction: the tokenizer inverts rendering; one pass with the final values is the declarative substitution; the two passes of the code (first pass keeping %(invocation)s and escaping literal %, strip, second pass with completed+1) equal the stripped one-pass result for every template, all values (including ones containing %) and every invocation number. The hand-written model is tied to RunId.cmdline / cmdline_for_next_invocation / location / env by generated templates, values, paths, locations and env maps (well-formed and malformed streams), to whole in-process sessions (argument, env, cwd of every start; numbers across an interrupted and resumed history; -p plan) and to real child processes recording argv, cwd and the complete environment.",
+   note="PARTIAL for the shell: /bin/sh word splitting and quote removal, Popen(env=..., cwd=...) and os.path.expanduser are outside the model (exercised by the CLI sessions; expand_user/shlex.join are modelled and compared per case, the round trip through sh is not proved). Format forms outside the modelled subset (flags, width, %r, %x) are classified 'other' and only required not to crash.",
+   technique="Rocq proof (induction over template pieces; strip commutes with rendering) + differential correspondence on generated templates + in-process and CLI sessions"),
  "C04": dict(
    text="Theorems for every outcome sequence, every N/retries/-f/ignore_timeouts and every initial progress over a Gallina model of one run's start/retry loop whose decision procedure (TerminationCheck) is regenerated from the source on every run: gap-free numbering 1..k<=N, failures record nothing, continue-iff the documented policy, bounded starts (N-completed+7), 127 abandons for good. Tied to the real Executor by the prefix-closed tree of all outcome sequences and random long sequences, in-process.",
    note="Trusted: Coq kernel, vm_compute, translator tr_termination.py, scripted subprocess_with_timeout.run in the harness. Adapter parsing is C05/C12. Group abort after exit 127 is checked on the implementation under all three schedulers by the oracle.",
